@@ -178,3 +178,18 @@ claim("C10",
       "sets must dump as before.",
       "an exception type counts as the outcome; at most 8 caption sets are kept alive",
       "DESIGN.md 3/C10")
+claim("C05",
+      "abstract pop-on programs (Hypothesis) + exhaustive sweeps over all 480 PAC words x tab "
+      "offsets x doubling, all 175 character codes in context, all short action sequences; "
+      "differential against an independent grid-based CEA-608 decoder with tables computed "
+      "from the bit layout",
+      "Generated-program search: 5k (thorough 400k) single-caption and 2.5k (300k) multi-"
+      "caption programs, 3840 PAC programs, 2926 character programs and all action sequences "
+      "of length <=3 (thorough <=5) in single and doubled form; per caption: count and order, "
+      "characters per line, transmitted spaces kept / none inserted between adjacent "
+      "characters, row grouping, (row, column) -> percentage position within 1e-9, italic flag "
+      "of every visible character, balance of STYLE nodes.",
+      "trusts vf/ref/cea608.py (tables cross-checked: they agree with all 480 PACs and 175 "
+      "character codes of pycaption); rows loaded top-down with one PAC each; captions whose "
+      "first row is the previous caption's last row (+1) are an open known finding",
+      "DESIGN.md 3/C05")
